@@ -77,3 +77,17 @@ Proof.
   intros Hl. rewrite match_pattern_correct, <- (literal_pattern_matches_itself_only p s Hl).
   split; [intros [= ->]; reflexivity|intros ->; reflexivity].
 Qed.
+(* sets: a set holding "*" matches every string; the empty set matches nothing; a set matches exactly when one of its
+   patterns stands in the relation *)
+Theorem set_with_star_matches_everything ps s : In [star] ps -> is_match ps s = Some true.
+Proof.
+  intros Hin. rewrite is_match_correct. f_equal. apply existsb_exists. exists [star]. split; [exact Hin|apply star_matches_everything].
+Qed.
+Theorem empty_set_matches_nothing s : is_match [] s = Some false.
+Proof. rewrite is_match_correct. reflexivity. Qed.
+Theorem set_matches_iff ps s : is_match ps s = Some true <-> exists p, In p ps /\ Matches p s.
+Proof.
+  rewrite is_match_correct. split.
+  - intros [= H]. apply existsb_exists in H as (p & Hp & Hm). exists p. split; [exact Hp|apply wm_iff_Matches; exact Hm].
+  - intros (p & Hp & Hm). f_equal. apply existsb_exists. exists p. split; [exact Hp|apply wm_iff_Matches; exact Hm].
+Qed.
